@@ -101,27 +101,28 @@ theorem silent_witness_deb_pad :
 
 /-- calls whose dropped result cannot hide a destination failure: closing a file that was only
     read, the "just in case" deferred Close of writers that are closed and checked explicitly on
-    the success path, writers into memory buffers, and the CLI's own clean-up -/
+    the success path, writers into memory buffers, and the CLI's own clean-up; each call is named by what
+    is called (package path and receiver type from go/types), so renaming a variable neither hides nor adds a row -/
 def allowlist : List (Bytes × Bytes × Bytes) :=
-  [ (b!"arch/arch.go", b!"createFilesInTar", b!"defer src.Close("),
-    (b!"arch/arch.go", b!"createMtree", b!"defer gw.Close("),
-    (b!"arch/arch.go", b!"createMtree", b!"gw.Close("),
-    (b!"arch/arch.go", b!"writeScripts", b!"_ = fl.Close("),
-    (b!"arch/arch.go", b!"writeScripts", b!"defer fl.Close("),
-    (b!"arch/arch.go", b!"writeScripts", b!"fmt.Fprintf("),
-    (b!"deb/deb.go", b!"copyToTarAndDigest", b!"defer tarFile.Close("),
-    (b!"deb/deb.go", b!"createChangelogInsideDataTar", b!"defer out.Close("),
-    (b!"deb/deb.go", b!"createControl", b!"defer compress.Close("),
-    (b!"deb/deb.go", b!"createControl", b!"defer out.Close("),
-    (b!"deb/deb.go", b!"createDataTarball", b!"defer dataTarballWriteCloser.Close("),
-    (b!"deb/deb.go", b!"fillDataTar", b!"defer out.Close("),
-    (b!"deb/deb.go", b!"readDpkgSigData", b!"temp, _ := template.New("),
-    (b!"internal/cmd/package.go", b!"doPackage", b!"defer f.Close("),
-    (b!"internal/cmd/package.go", b!"doPackage", b!"os.Remove("),
-    (b!"ipk/tar.go", b!"newTGZ", b!"defer gz.Close("),
-    (b!"ipk/tar.go", b!"newTGZ", b!"defer tarball.Close("),
-    (b!"ipk/tar.go", b!"writeFile", b!"defer f.Close("),
-    (b!"nfpm.go", b!"ParseFileWithEnvMapping", b!"defer file.Close(") ]
+  [(b!"arch", b!"createFilesInTar", b!"defer (*os.File).Close("),
+  (b!"arch", b!"createMtree", b!"(*github.com/klauspost/pgzip.Writer).Close("),
+  (b!"arch", b!"createMtree", b!"defer (*github.com/klauspost/pgzip.Writer).Close("),
+  (b!"arch", b!"writeScripts", b!"_ = (*os.File).Close("),
+  (b!"arch", b!"writeScripts", b!"defer (*os.File).Close("),
+  (b!"arch", b!"writeScripts", b!"fmt.Fprintf("),
+  (b!"deb", b!"copyToTarAndDigest", b!"defer (*os.File).Close("),
+  (b!"deb", b!"createChangelogInsideDataTar", b!"defer (*compress/gzip.Writer).Close("),
+  (b!"deb", b!"createControl", b!"defer (*archive/tar.Writer).Close("),
+  (b!"deb", b!"createControl", b!"defer (*compress/gzip.Writer).Close("),
+  (b!"deb", b!"createDataTarball", b!"defer (io.Closer).Close("),
+  (b!"deb", b!"fillDataTar", b!"defer (*archive/tar.Writer).Close("),
+  (b!"deb", b!"readDpkgSigData", b!"v, _ := (*text/template.Template).Parse("),
+  (b!"internal/cmd", b!"doPackage", b!"defer (*os.File).Close("),
+  (b!"internal/cmd", b!"doPackage", b!"os.Remove("),
+  (b!"ipk", b!"newTGZ", b!"defer (*archive/tar.Writer).Close("),
+  (b!"ipk", b!"newTGZ", b!"defer (*compress/gzip.Writer).Close("),
+  (b!"ipk", b!"writeFile", b!"defer (*os.File).Close("),
+  (b!"nfpm", b!"ParseFileWithEnvMapping", b!"defer (*os.File).Close(") ]
 
 /-- every dropped error result in the packaging code of the current tree is allowlisted
     (a new `_ =`, bare call or `defer x.Close()` on an output path changes this table) -/
@@ -157,5 +158,9 @@ theorem plan_error_propagates (O : Oracle) (cfg : PlanCfg) (ic : Nat × Content)
 theorem cli_failure_outcome :
     cliAfterPackage true = { exitNonZero := true, causePrinted := true, targetRemoved := true } ∧
     (cliAfterPackage false).targetRemoved = false := by decide
+
+/-- the translator regenerated, on this run and from the working tree, every table this property is tied through
+    (when an extraction fails the reviewed table stands in so that the model still compiles, and this stops checking) -/
+theorem translator_tables_regenerated : Generated.extracted_G9Dropped = true := by decide
 
 end Nfpm.Props.C06
